@@ -193,12 +193,14 @@ impl NW {
         let pr: HashSet<&String> = pool["st"].as_object().unwrap().iter().filter(|(_, s)| s.as_str() == Some("proposed")).map(|(k, _)| k).collect();
         let mut last: Option<(u64, u64, Vec<String>, Vec<String>)> = None;
         let mut same = 0;
-        for i in 0..1500 {
+        // an inconsistent template is waited for (up to 8 s: the assembler task may lag under load); the wait costs
+        // nothing in the normal case and only delays the report when the template really is wrong
+        for i in 0..5000 {
             let cur = self.template();
             if let Some(c) = &cur {
                 let consistent = c.2.iter().all(|p| pg.contains(p)) && c.3.iter().all(|t| pr.contains(t));
                 if cur == last { same += 1 } else { same = 0 }
-                if c.1 == tip && same >= 2 && (consistent || !notified || self.tpl_maybe_stale || i > 600) {
+                if c.1 == tip && same >= 2 && (consistent || !notified || self.tpl_maybe_stale || i > 4000) {
                     break;
                 }
             }
